@@ -66,6 +66,7 @@ type c42Tree struct {
 	state string // ok bad init
 	nodes []c42Node
 	huge  bool
+	delay time.Duration // > 0: explicit load delay, < 0: no delay at all, 0: hash-derived small delay
 }
 
 type c42Case struct {
@@ -331,6 +332,90 @@ func c42Gen(rng *rand.Rand, p c42Params) *c42Case {
 	return c
 }
 
+// c42GenHuge: trees that the index reports as > 50 MiB (served through the buffered
+// hugeTreeChan by the single huge-tree worker).
+//   kind 0: a directory with many huge subdirectories that load slowly, next to ordinary ones, so
+//           that more huge trees are pending than the channel holds;
+//   kind 1: two or more huge trees back to back, the first one very wide (thousands of subtrees,
+//           only the first few of them not reachable otherwise), the following ones small and
+//           loaded without any delay, so that the huge-tree worker is already decoding the next
+//           tree while filterTrees still walks the subtree list of the previous one.
+func c42GenHuge(rng *rand.Rand, kind int) *c42Case {
+	c := &c42Case{byID: map[restic.ID]*c42Tree{}, blobs: map[restic.ID][]byte{}}
+	uniq := 0
+	add := func(huge bool, delay time.Duration, nodes []c42Node) restic.ID {
+		var parts [][]byte
+		for j, nd := range nodes {
+			node := &data.Node{Name: fmt.Sprintf("n%05d", j), Mode: 0644}
+			switch nd.kind {
+			case "file":
+				node.Type = data.NodeTypeFile
+				node.Content = nd.content
+			case "dir":
+				node.Type = data.NodeTypeDir
+				node.Subtree = nd.subtree
+			}
+			js, err := json.Marshal(node)
+			if err != nil {
+				panic(err)
+			}
+			parts = append(parts, js)
+		}
+		buf := append([]byte(`{"nodes":[`), bytes.Join(parts, []byte(","))...)
+		buf = append(buf, []byte("]}\n")...)
+		t := &c42Tree{state: "ok", buf: buf, id: restic.Hash(buf), nodes: nodes, huge: huge, delay: delay}
+		if _, dup := c.byID[t.id]; !dup {
+			c.byID[t.id] = t
+			c.trees = append(c.trees, t)
+		}
+		return t.id
+	}
+	file := func() c42Node {
+		uniq++
+		return c42Node{kind: "file", content: restic.IDs{restic.Hash([]byte(fmt.Sprintf("blob-%d-%d", rng.Int63(), uniq)))}}
+	}
+	dir := func(id restic.ID) c42Node { i := id; return c42Node{kind: "dir", subtree: &i} }
+	leaf := func() restic.ID { return add(false, 0, []c42Node{file()}) }
+	var rootNodes []c42Node
+	switch kind {
+	case 0:
+		c.label = "many-huge-trees"
+		nh := 13 + rng.Intn(18)
+		for i := 0; i < nh; i++ {
+			sub := leaf()
+			id := add(true, time.Duration(1500+rng.Intn(1500))*time.Microsecond, []c42Node{file(), dir(sub)})
+			rootNodes = append(rootNodes, dir(id))
+		}
+		for i := 0; i < 2+rng.Intn(5); i++ {
+			rootNodes = append(rootNodes, dir(leaf()))
+		}
+		rng.Shuffle(len(rootNodes), func(i, j int) { rootNodes[i], rootNodes[j] = rootNodes[j], rootNodes[i] })
+	default:
+		c.label = "wide-huge-trees"
+		shared := leaf()
+		rounds := 2 + rng.Intn(3)
+		for r := 0; r < rounds; r++ {
+			width := 2500 + rng.Intn(3500)
+			if r > 0 && rng.Intn(2) == 0 {
+				width = 3 + rng.Intn(20)
+			}
+			var nodes []c42Node
+			k := 1 + rng.Intn(6) // subtrees only this tree refers to, at the front of the list
+			for i := 0; i < width; i++ {
+				if i < k {
+					nodes = append(nodes, dir(leaf()))
+				} else {
+					nodes = append(nodes, dir(shared))
+				}
+			}
+			rootNodes = append(rootNodes, dir(add(true, -1, nodes)))
+		}
+	}
+	root := add(false, 0, rootNodes)
+	c.roots1 = []restic.ID{root}
+	return c
+}
+
 func c42MinInt(a, b int) int {
 	if a < b {
 		return a
@@ -382,11 +467,15 @@ func (l *c42Loader) LoadBlob(_ context.Context, h restic.BlobHandle, _ []byte) (
 	l.mu.Lock()
 	l.loads = append(l.loads, h.ID)
 	l.mu.Unlock()
+	t, ok := l.c.byID[h.ID]
 	// deterministic per-tree delay so that completion order differs from request order
-	if d := (h.ID[0] ^ l.salt) % 8; d >= 5 {
+	if ok && t.delay != 0 {
+		if t.delay > 0 {
+			time.Sleep(t.delay)
+		}
+	} else if d := (h.ID[0] ^ l.salt) % 8; d >= 5 {
 		time.Sleep(time.Duration(d-4) * 40 * time.Microsecond)
 	}
-	t, ok := l.c.byID[h.ID]
 	if !ok || h.Type != restic.TreeBlob {
 		return nil, fmt.Errorf("blob %v not found", h)
 	}
@@ -454,8 +543,15 @@ func c42Sched(h *H, rng *rand.Rand) {
 func streamC42(h *H) {
 	// --- fub ---
 	n := h.N(300, 16000)
-	for i := 0; i < n; i++ {
-		c := c42Gen(h.Rng, c42Params{maxTrees: 14})
+	nSpecial := h.N(12, 240)
+	for i := 0; i < n+nSpecial; i++ {
+		var c *c42Case
+		if i < nSpecial {
+			// first, so that a defect that crashes or hangs the stream later does not hide them
+			c = c42GenHuge(h.Rng, i%2)
+		} else {
+			c = c42Gen(h.Rng, c42Params{maxTrees: 14})
+		}
 		h.Case("fub")
 		h.Rec("label", c.label)
 		c.emit(h, false)
